@@ -10,7 +10,7 @@ def components():
 
 
 def oracles_():
-    return [comps_difftree.KeepStream(), comps_uord.UordReverseOracle(), oracles.DiffRev(), oracles.DiffUordRev(), comps_difftree.DiffTreeLaws("C13"), comps_difftree.FixedRegress("C13"), comps_difftree.DiffKinds("C13"), comps_difftree.DiffMergeOpts()]
+    return [comps_difftree.KeepStream(), comps_uord.UordReverseOracle(), oracles.DiffRev(), oracles.DiffUordRev(), comps_difftree.DiffTreeLaws("C13"), comps_difftree.FixedRegress("C13"), comps_difftree.FixedRegress("C13", "t_c14x"), comps_difftree.DiffKinds("C13"), comps_difftree.DiffMergeOpts()]
 
 
 MANIFEST = {
